@@ -50,6 +50,11 @@ class TLCResult:
             self.coverage[m.group(1)] = max(self.coverage.get(m.group(1), 0), int(m.group(4)))
         self.errors = [l for l in out.splitlines() if l.startswith("Error:")]
 
+    def covered(self, name):
+        """distinct states produced by a named action (TLC reports either the wrapper Do<X> or the inner <X>)"""
+        alts = {name, "Do" + name, name[2:] if name.startswith("Do") else name}
+        return max([self.coverage.get(a, 0) for a in alts] + [0])
+
     @property
     def ok(self):
         return self.completed and not self.errors
